@@ -1319,20 +1319,20 @@ Definition no_uri : knobs := {| k_uri := false; k_dup := true; k_nodeid := true;
 Definition no_dup : knobs := {| k_uri := true; k_dup := false; k_nodeid := true; k_onesig := true; k_issuer := true; k_iter := true; k_exact := true |}.
 Definition no_nodeid : knobs := {| k_uri := true; k_dup := true; k_nodeid := false; k_onesig := true; k_issuer := true; k_iter := true; k_exact := true |}.
 
-Definition admits_wrapping (K : knobs) (d : tree) : Prop :=
+Definition permits_wrapping (K : knobs) (d : tree) : Prop :=
   Ex.names (Ex.run K Ex.cfgA d) = Some (Some ("admin", None))
   /\ Ex.bad Ex.cfgA d (Ex.run K Ex.cfgA d) = true
   /\ Ex.run as_coded Ex.cfgA d = None.
 
-Lemma necessity_uri : admits_wrapping no_uri Ex.doc_uri.
+Lemma necessity_uri : permits_wrapping no_uri Ex.doc_uri.
 Proof. repeat split; vm_compute; reflexivity. Qed.
-Lemma necessity_dup : admits_wrapping no_dup Ex.doc_dup.
+Lemma necessity_dup : permits_wrapping no_dup Ex.doc_dup.
 Proof. repeat split; vm_compute; reflexivity. Qed.
-Lemma necessity_nodeid : admits_wrapping no_nodeid Ex.doc_nodeid.
+Lemma necessity_nodeid : permits_wrapping no_nodeid Ex.doc_nodeid.
 Proof. repeat split; vm_compute; reflexivity. Qed.
 
 Definition no_onesig : knobs := {| k_uri := true; k_dup := true; k_nodeid := true; k_onesig := false; k_issuer := true; k_iter := true; k_exact := true |}.
-Lemma necessity_onesig : admits_wrapping no_onesig Ex.doc_f1.
+Lemma necessity_onesig : permits_wrapping no_onesig Ex.doc_f1.
 Proof. repeat split; vm_compute; reflexivity. Qed.
 
 (* the one-signature test must look at ALL descendants in document order: a genuine, still signed assertion
@@ -1345,7 +1345,7 @@ Definition doc_nested_first : tree :=
           [Ex.txt ISSUER Ex.IDP; Ex.el ADVICE [Ex.A_signed]; Ex.sig "#E" "x" "y";
            Ex.el SUBJECT [Ex.txt NAMEID "admin"];
            Ex.el ATTRSTMT [Node ATTRIBUTE [("Name", "mail"); ("NameFormat", "uri")] "" [Ex.txt ATTRVALUE "admin@evil.example"]]]].
-Lemma necessity_first_signature_is_child : admits_wrapping no_iter doc_nested_first.
+Lemma necessity_first_signature_is_child : permits_wrapping no_iter doc_nested_first.
 Proof. repeat split; vm_compute; reflexivity. Qed.
 
 (* the Reference URI must equal "#"+ID exactly: with a case-insensitive comparison the genuine signature
@@ -1354,7 +1354,7 @@ Definition no_exact : knobs :=
   {| k_uri := true; k_dup := true; k_nodeid := true; k_onesig := true; k_issuer := true; k_iter := true; k_exact := false |}.
 Definition doc_case_id : tree :=
   Ex.response Ex.IDP [Ex.assertion "a" Ex.IDP [Ex.sigA] "admin" "admin@evil.example" [Ex.el ADVICE [Ex.genuineA]]].
-Lemma necessity_exact_id : admits_wrapping no_exact doc_case_id.
+Lemma necessity_exact_id : permits_wrapping no_exact doc_case_id.
 Proof. repeat split; vm_compute; reflexivity. Qed.
 
 (* C02-F2 (fixed by 64feb908): assertion-only signature, the reported issuer was the unsigned envelope's *)
